@@ -204,9 +204,24 @@ func init() {
 	register("roundtrip", cmdRoundtrip)
 }
 
+type catEntry struct {
+	Name    Bytes   `json:"name"`
+	Version int     `json:"version"`
+	Syms    []Bytes `json:"syms"`
+}
+
 type readCase struct {
-	Bytes Bytes  `json:"bytes"`
-	Mode  string `json:"mode"`
+	Bytes Bytes      `json:"bytes"`
+	Mode  string     `json:"mode"`
+	Cat   []catEntry `json:"cat"` // shared tables the Reader's catalog holds
+}
+
+func catalogOf(entries []catEntry) ion.Catalog {
+	ssts := make([]ion.SharedSymbolTable, len(entries))
+	for i, e := range entries {
+		ssts[i] = ion.NewSharedSymbolTable(string(e.Name), e.Version, strs(e.Syms))
+	}
+	return ion.NewCatalog(ssts...)
 }
 
 // read: plain full traversal of given bytes with the real Reader (C02, C03, ...).
@@ -225,7 +240,7 @@ func cmdRead(in *bufio.Scanner, out *bufio.Writer) error {
 		}
 		o := rtObs{Idx: idx, Mode: mode, Out: c.Bytes, Back: []Val{}}
 		rerr, rpan, rsite := safely(func() error {
-			r := ion.NewReaderBytes([]byte(c.Bytes))
+			r := ion.NewReaderCat(bytes.NewReader([]byte(c.Bytes)), catalogOf(c.Cat))
 			back, err := projectAll(r)
 			o.Back = back
 			o.ErrAfter = errString(r.Err())
